@@ -113,6 +113,16 @@ CHECKS = {
    note="Trusted: TLC, JSON bridge, the CSV/config renderer. User dictionaries are compiled against the bare system dictionary. Plugin registration is exercised through OOV providers with userPOS=allow.",
    technique="TLA+ spec DictLayers (PosStraight) + TLC; S->I replay through real build+load+analysis; I->S trace validation (Trace_DictLayers)",
    design="4 C12"),
+ "C07": dict(
+   category="model_checking",
+   text="Normalize.tla states the meaning Norm (left-to-right, longest key wins, else lower-case then NFKC unless exempt) and transcribes both code paths of DefaultInputTextPlugin and the "
+        "rule choosing between them, plus declarative Prolonged and Yomigana; TLC checks out = Norm and PathsAgree for all 512 tables over 9 keys (keys that are prefixes of other keys, keys whose "
+        "first character is narrower/wider than a later one, a key starting with an upper-case letter) x all texts <= 3 (thorough 4) over letters chosen for structure (upper-case, title-case, NFKC 1->1 and 1->4, "
+        "exempt). Each (table, text) is replayed through the real plugin loaded with a generated rewrite.def. Recorded runs with the shipped tables over Unicode scalars (alone, and before a character "
+        "forcing the general path), random prefix-related tables x random strings, and three prolonged-mark / yomigana settings are trace-validated; the Unicode primitives come from trusted library tables.",
+   note="Trusted: TLC, JSON bridge, char::to_lowercase, unicode-normalization, the regex engines as libraries. Two genuine defects found here were repaired (known_findings.json, fixed).",
+   technique="TLA+ spec Normalize (Norm vs Fast/Slow) + TLC; S->I replay through the real plugin; I->S trace validation (Trace_Normalize)",
+   design="4 C07"),
 }
 
 NOT_YET = "no check registered yet in this revision (work in progress; see DESIGN.md section 8 build order)"
